@@ -168,7 +168,7 @@ func init() {
 		Make: func(r *rand.Rand, seed int64, chain int, tier string) *Scenario {
 			p := GeneralProfile()
 			p.PBigAmt = 0.3
-			for _, k := range []string{"sellall", "sellallpool", "buy", "buypool", "remliq", "burn", "mint", "unbond", "buyheadroom"} {
+			for _, k := range []string{"sellall", "sellallpool", "buy", "buypool", "remliq", "burn", "mint", "unbond", "buyheadroom", "sellheadroom"} {
 				p.W[k] = 8
 			}
 			return baseScenario("C02", r, seed, chain, tier, p, nil)
